@@ -22,7 +22,13 @@ impl Formatter {
     /// Format a program and return the formatted source
     pub fn format(mut self, program: &Program) -> String {
         self.format_program(program);
-        self.writer.finish()
+        // Declarations end their last line themselves and `format_program` adds the final newline on top of that:
+        // keep exactly one newline at the end of the file.
+        let mut output = self.writer.finish();
+        while output.ends_with("\n\n") {
+            output.pop();
+        }
+        output
     }
 
     fn write_visibility(&mut self, visibility: crate::frontend::ast::Visibility) {
